@@ -168,7 +168,7 @@ static std::string run(const std::vector<std::string>& t)
         Dune::GlobalLookupIndexSet<Set> gl(cs);
         r = "[";
         for (typename Dune::GlobalLookupIndexSet<Set>::const_iterator it = gl.begin(); it != gl.end(); ++it) r += pstr(*it);
-        r += "]"; break;
+        r += "]/" + std::to_string(gl.size()); break;
       }
       case 'K': {
         std::size_t a = (std::size_t) f[0], b = (std::size_t) f[1]; TG g = (TG) f[2];
@@ -241,7 +241,11 @@ static std::string run(const std::vector<std::string>& t)
   return out;
 }
 
+#ifdef C03_SAN_SUBSET
+#define NS X(1) X(3)      /* the sanitizer build instantiates two chunk sizes only (compile time) */
+#else
 #define NS X(0) X(1) X(2) X(3) X(4) X(7) X(100)
+#endif
 
 int main(int argc, char** argv)
 {
